@@ -283,6 +283,50 @@ Definition token_split_on_char (h : heap) (src : list N) (t c : N) : option heap
   if Nlen src + 2 <? start + stop then None else
   split_on_char_loop (N.to_nat stop) h src c t start 0 stop.
 
+(* ---- mmd.c:pair_emphasis_tokens: mated * and _ markers become emphasis / strong containers.  The kinds it tests and
+   assigns are parameters (the correspondence check passes the values the compiler gives them). *)
+Record econst := mkec { c_star : N; c_ul : N; c_strong_start : N; c_strong_stop : N; c_emph_start : N; c_emph_stop : N;
+                        c_pair_strong : N; c_pair_emph : N; c_pair_backtick : N; c_pair_math : N }.
+
+Fixpoint pair_emphasis (fuel : nat) (k : econst) (h : heap) (t : N) {struct fuel} : option heap :=
+  match fuel with
+  | O => None
+  | S fuel =>
+    if t =? 0 then Some h else
+    let? m := rd h t Fmt in let? ty := rd h t Fty in
+    let? h :=
+      (if negb (m =? 0) && ((ty =? c_star k) || (ty =? c_ul k)) then
+         let closer := m in
+         let? tn := rd h t Fnx in
+         (* the test for a strong pair, left to right with the short cuts of && *)
+         let? strong :=
+           (if tn =? 0 then Some false else
+            let? tnm := rd h tn Fmt in let? cpv := rd h closer Fpv in
+            if negb (tnm =? cpv) then Some false else
+            let? tnty := rd h tn Fty in
+            if negb (ty =? tnty) then Some false else
+            if tnm =? t then Some false else
+            let? ts := rd h t Fst in let? tln := rd h t Fln in let? tns := rd h tn Fst in
+            if negb (wadd ts tln =? tns) then Some false else
+            let? cs := rd h closer Fst in let? cps := rd h cpv Fst in let? cpl := rd h cpv Fln in
+            Some (cs =? wadd cps cpl)) in
+         if strong then
+           let? h := wr h t Fty (c_strong_start k) in let? h := wr h t Fln 2 in
+           let? h := wr h closer Fty (c_strong_stop k) in let? h := wr h closer Fln 2 in
+           let? cs := rd h closer Fst in let? h := wr h closer Fst (wsub cs 1) in
+           let? tn := rd h t Fnx in let? h := tokens_prune h tn tn in
+           let? cp := rd h closer Fpv in let? h := tokens_prune h cp cp in
+           token_prune_graft h t closer (c_pair_strong k)
+         else
+           let? h := wr h t Fty (c_emph_start k) in let? h := wr h closer Fty (c_emph_stop k) in
+           token_prune_graft h t closer (c_pair_emph k)
+       else Some h) in
+    let? tc := rd h t Fch in let? ty2 := rd h t Fty in
+    let? h := (if negb (tc =? 0) && negb ((ty2 =? c_pair_backtick k) || (ty2 =? c_pair_math k)) then pair_emphasis fuel k h tc else Some h) in
+    let? tn := rd h t Fnx in
+    pair_emphasis fuel k h tn
+  end.
+
 (* ---- operation scripts (the correspondence check and the history theorems) *)
 
 Inductive th_op :=
@@ -300,7 +344,8 @@ Inductive th_op :=
 | OGraft (first last ctype : N)
 | OSplit (t start len ntype : N)
 | OSplitChar (t c : N)
-| OMate (a b : N)          (* what token_pairs.c does to a matched opener / closer: a->mate = b; b->mate = a *).
+| OMate (a b : N)          (* what token_pairs.c does to a matched opener / closer: a->mate = b; b->mate = a *)
+| OEmph (k : econst) (t : N).
 
 Definition th_step (src : list N) (h : heap) (o : th_op) : option heap :=
   match o with
@@ -319,6 +364,7 @@ Definition th_step (src : list N) (h : heap) (o : th_op) : option heap :=
   | OSplit a b c d => token_split h a b c d
   | OSplitChar a c => token_split_on_char h src a c
   | OMate a b => let? h := wr h a Fmt b in wr h b Fmt a
+  | OEmph k a => pair_emphasis (4 * length h + 4) k h a
   end.
 
 (* runs a script; the result is the heap and the number of operations executed before the first one
